@@ -123,6 +123,7 @@ func genC05(t *rapid.T) *Scenario {
 		sc.Mode = "pure"
 	}
 	genPrefill(t, sc)
+	sc.Twin = rapid.IntRange(0, 4).Draw(t, "twin") == 0
 	sc.Script = genScript(t, 1, nPortsOf(sc.Stage, sc.Mode, sc.StdErr), false, false, 40)
 	return sc
 }
@@ -301,6 +302,7 @@ func genC06(t *rapid.T) *Scenario {
 	}
 	sc.NoFinish = rapid.IntRange(0, 3).Draw(t, "nofinish") == 0
 	sc.PreCancel = rapid.IntRange(0, 9).Draw(t, "precancel") == 0 // built on a context that is cancelled already
+	sc.Twin = rapid.IntRange(0, 5).Draw(t, "twin") == 0
 	if sc.Stage == "join" && nIn >= 2 && rapid.IntRange(0, 2).Draw(t, "lastSlot") == 0 {
 		// several copiers reach for the last free slot of the output at the same instant, then nobody receives and the context is cancelled
 		sc.PreCancel, sc.NoFinish, sc.Repeat, sc.Prefill = false, true, 6, 0
@@ -560,6 +562,7 @@ func genC09(t *rapid.T) *Scenario {
 	}
 	sc.NoFinish = rapid.IntRange(0, 4).Draw(t, "nofinish") == 0
 	sc.PreCancel = rapid.IntRange(0, 11).Draw(t, "precancel") == 0
+	sc.Twin = rapid.IntRange(0, 5).Draw(t, "twin") == 0
 	if len(sc.Script) > 1 && sc.Script[0].K == "burst" && sc.Script[0].M == 16 && sc.Script[len(sc.Script)-1].K != "release" {
 		sc.NoFinish = sc.NoFinish || rapid.Bool().Draw(t, "nobodyReceives") // simultaneous-release class
 	}
